@@ -1,5 +1,6 @@
 """C20: exhaustive truth table of Grid.__eq__ on real grids (replay of the boolean counter-model and bounded stand-in)"""
 import itertools
+import random
 
 import numpy as np
 
@@ -64,7 +65,173 @@ def replay_eq(replay):
     return {"verdict": "not-reproduced", "cases": n}
 
 
+# ------------------------------------------------------------------------------------------ access histories
+# Equality is a function of (format, node_lon, node_lat, face_node_connectivity) ONLY.  Reading a lazily built derived
+# variable (which adds variables / dimensions such as n_edge, two, n_max_node_faces to the internal dataset) on one
+# operand, or taking a copy() before vs after such a read, does not change any of the four, so it must change neither
+# ==, nor !=, nor the negation relation between them.  The expectation is computed from the INPUT arrays with numpy.
+
+# cheap under the default JIT (no long first-call compilation)
+_ACCESSORS_QUICK = ["n_edge", "edge_node_connectivity", "node_face_connectivity", "face_edge_connectivity", "face_areas",
+                    "face_lon", "node_x", "edge_lon", "bounds"]
+# first call compiles for several seconds (edge_face_connectivity) or adds nothing new dimension-wise: thorough only
+_ACCESSORS_THOROUGH = _ACCESSORS_QUICK + ["edge_face_connectivity", "face_face_connectivity", "edge_node_distances",
+                                          "n_nodes_per_face", "face_x", "edge_x"]
+
+
+def _same_data(d1, d2):
+    """oracle of the property statement on the INPUT description (format, lon, lat, faces) of two grids"""
+    (s1, lon1, lat1, f1), (s2, lon2, lat2, f2) = d1, d2
+    return bool(s1 == s2 and lon1.shape == lon2.shape and lat1.shape == lat2.shape and f1.shape == f2.shape
+                and np.array_equal(lon1, lon2) and np.array_equal(lat1, lat2) and np.array_equal(f1, f2))
+
+
+def _build(desc):
+    spec, lon, lat, faces = desc
+    g = grid_from(lon.copy(), lat.copy(), faces.copy())
+    if spec is not None:
+        g.source_grid_spec = spec
+    return g
+
+
+def _touch(g, names):
+    """first access of derived variables; what they return (or raise) is not C20's business, only that the access
+    happened: node_lon / node_lat / face_node_connectivity / format are untouched by it"""
+    raised = []
+    for nm in names:
+        try:
+            getattr(g, nm)
+        except Exception as e:  # noqa: BLE001 - outside the property's promise; the comparison below is still meaningful
+            raised.append(f"{nm}:{type(e).__name__}")
+    return raised
+
+
+class _Hist:
+    def __init__(self):
+        self.failures, self.cases, self.keys, self.samples = [], 0, set(), []
+
+    def compare(self, a, b, expect, scenario, acc, inputs):
+        """== and != in both operand orders against the oracle, plus the negation relation"""
+        self.keys.add((inputs.get("mesh"), scenario, acc))
+        for x, y, tag in ((a, b, "a,b"), (b, a, "b,a")):
+            res = {}
+            for op in ("==", "!="):
+                self.cases += 1
+                try:
+                    res[op] = bool((x == y) if op == "==" else (x != y))
+                except Exception as e:  # noqa: BLE001
+                    self.failures.append({"key": f"exception:{type(e).__name__}:{op}:{scenario}:{acc}",
+                                          "what": f"{op} raised {e!r} ({tag})", "violated": "comparison returns a bool",
+                                          "inputs": dict(inputs, order=tag), "observed": repr(e), "expected": expect})
+            if "==" in res and res["=="] != expect:
+                self.failures.append({"key": f"eq_iff_same_format_lon_lat_conn:{scenario}:{acc}",
+                                      "what": f"== ({tag}) is {res['==']} for grids whose format/lon/lat/connectivity are "
+                                              f"{'identical' if expect else 'different'}",
+                                      "violated": "iff(a == b, same format and identical node_lon, node_lat, face_node_connectivity)",
+                                      "inputs": dict(inputs, order=tag), "observed": res["=="], "expected": expect})
+            if "!=" in res and res["!="] != (not expect):
+                self.failures.append({"key": f"ne_iff_data_differs:{scenario}:{acc}",
+                                      "what": f"!= ({tag}) is {res['!=']} for grids whose format/lon/lat/connectivity are "
+                                              f"{'identical' if expect else 'different'}",
+                                      "violated": "iff(a != b, not(same format and identical node_lon, node_lat, face_node_connectivity))",
+                                      "inputs": dict(inputs, order=tag), "observed": res["!="], "expected": (not expect)})
+            self.cases += 1
+            if len(res) == 2 and res["!="] != (not res["=="]):
+                self.failures.append({"key": f"ne_is_negation_of_eq:{scenario}:{acc}",
+                                      "what": f"({tag}): != gives {res['!=']} while == gives {res['==']}",
+                                      "violated": "(a != b) == not (a == b)",
+                                      "inputs": dict(inputs, order=tag), "observed": res["!="], "expected": (not res["=="])})
+
+
+def _perturbations(desc, rng):
+    """(tag, description) of grids differing from desc in exactly one aspect named by the property statement"""
+    spec, lon, lat, faces = desc
+    out = []
+    i = rng.randrange(len(lon))
+    lon2 = lon.copy()
+    lon2[i] += 0.5
+    out.append(("one_lon", (spec, lon2, lat, faces)))
+    j = rng.randrange(len(lat))
+    lat2 = lat.copy()
+    lat2[j] += (0.25 if lat[j] < 80 else -0.25)
+    out.append(("one_lat", (spec, lon, lat2, faces)))
+    f = rng.randrange(faces.shape[0])
+    real = [p for p in range(faces.shape[1]) if faces[f, p] != FILL]
+    p = rng.choice(real)
+    f2 = faces.copy()
+    f2[f, p] = (int(faces[f, p]) + 1) % len(lon)
+    out.append(("one_conn_entry", (spec, lon, lat, f2)))
+    out.append(("n_node", (spec, np.append(lon, 3.0), np.append(lat, 4.0), faces)))
+    if faces.shape[0] > 1:
+        out.append(("n_face", (spec, lon, lat, faces[:-1].copy())))
+    out.append(("format", ("Other Format", lon, lat, faces)))
+    return out
+
+
+def _check_histories(tier, seed):
+    from . import meshgen
+
+    rng = random.Random(seed * 1009 + 20)
+    accs = list(_ACCESSORS_THOROUGH if tier == "thorough" else _ACCESSORS_QUICK)
+    lon, lat, faces = mixed_grid()
+    descs = [("mixed_grid", (None, lon, lat, faces))]
+    cat = [m for m in meshgen.catalogue(tier, seed) if m["n_face"] <= 60]
+    pick = cat if tier == "thorough" else rng.sample(cat, 5)
+    for m in pick:
+        descs.append((m["name"], (None, np.array(m["lon"], float), np.array(m["lat"], float),
+                                  np.array(m["faces"], dtype=np.int64))))
+    h = _Hist()
+    for name, desc in descs:
+        # (thorough: every accessor on every mesh; quick: every accessor on mixed_grid, 3 seeded ones on the others)
+        use = accs if (tier == "thorough" or name == "mixed_grid") else rng.sample(accs, 3)
+        for acc in use:
+            inp = {"mesh": name, "accessed": [acc]}
+            # 1. derived variable first accessed on exactly one of two twins
+            a, b = _build(desc), _build(desc)
+            h.compare(a, b, _same_data(desc, desc), "fresh_twins", "none", {"mesh": name})
+            r = _touch(a, [acc])
+            h.compare(a, b, True, "accessed_on_one_operand", acc, dict(inp, accessor_raised=r))
+            h.compare(a, a, True, "reflexive_after_access", acc, inp)
+            # 2. same access on both: same history
+            _touch(b, [acc])
+            h.compare(a, b, True, "accessed_on_both_operands", acc, inp)
+            # 3. copy taken BEFORE the access, compared after it
+            c = _build(desc)
+            cc = c.copy()
+            _touch(c, [acc])
+            h.compare(c, cc, True, "copy_taken_before_access", acc, inp)
+            # 4. copy taken AFTER the access: against the original, against a fresh twin and against the early copy
+            ca = c.copy()
+            h.compare(c, ca, True, "copy_taken_after_access", acc, inp)
+            h.compare(ca, _build(desc), True, "copy_after_access_vs_fresh_twin", acc, inp)
+            h.compare(ca, cc, True, "copy_after_access_vs_copy_before_access", acc, inp)
+        # 5. two different (seeded) access sequences on the two operands
+        k = min(len(accs), 4)
+        sa, sb = rng.sample(accs, k), rng.sample(accs, k)
+        a, b = _build(desc), _build(desc)
+        _touch(a, sa)
+        _touch(b, sb)
+        h.compare(a, b, True, "different_access_sequences", "mixed", {"mesh": name, "accessed_a": sa, "accessed_b": sb})
+        # 6. a history must not mask a genuine difference either (one lon / lat / connectivity entry / size / format)
+        acc = rng.choice(accs)
+        for tag, d2 in _perturbations(desc, rng):
+            a, b = _build(desc), _build(d2)
+            _touch(a, [acc])
+            h.compare(a, b, _same_data(desc, d2), f"accessed_on_one_operand_other_differs_in_{tag}", "any",
+                      {"mesh": name, "accessed": [acc], "difference": tag})
+        if len(h.samples) < 3:
+            h.samples.append({"mesh": name, "n_node": int(len(desc[1])), "n_face": int(desc[3].shape[0])})
+    return h, len(descs), accs
+
+
 def eq_matrix(tier, seed):
     n, failures = _check_all()
-    return result(n, n, failures, "exhaustive: 16 combinations of (format, lon, lat, connectivity) equal/different x both "
-                  "orders, plus reflexivity, copy, non-Grid, different sizes")
+    h, n_mesh, accs = _check_histories(tier, seed)
+    return result(n + h.cases, n + len(h.keys), failures + h.failures,
+                  "exhaustive: 16 combinations of (format, lon, lat, connectivity) equal/different x both "
+                  "orders, plus reflexivity, copy, non-Grid, different sizes; access histories: "
+                  f"{n_mesh} meshes (mixed_grid + catalogue meshes <= 60 faces) x derived accessors {accs} "
+                  "(all on mixed_grid, 3 seeded per other mesh in the quick tier): accessed on one / both operands, copy "
+                  "before / after the access, two different access sequences, and one-sided access combined with a single "
+                  "lon / lat / connectivity-entry / n_node / n_face / format difference; ==, != in both operand orders and "
+                  "their negation relation; numba JIT at the library default", h.samples)
